@@ -290,13 +290,13 @@ theorem chunkMem_chunksOK (h : Seq → Nat) (size : Nat) (batches : List (List R
 
 /-! ## `ISequenceChunkOnDisk` -/
 
-theorem readFiles_ok {β : Type} (fl : FileLayer β) (g : Nat × List β → List Rec) :
+theorem readFiles_ok {β : Type} (fl : FileLayer β) (ld : List Rec → List Rec) (g : Nat × List β → List Rec) :
     ∀ files : List (Nat × List β), (∀ f ∈ files, fl.read f.2 = some (g f)) →
-      readFiles fl files = .ok (files.map fun f => (f.1, g f))
+      readFiles fl ld files = .ok (files.map fun f => (f.1, ld (g f)))
   | [], _ => rfl
   | f :: t, hh => by
     have h1 := hh f (by simp)
-    have ih := readFiles_ok fl g t (fun f' hf' => hh f' (List.mem_cons_of_mem _ hf'))
+    have ih := readFiles_ok fl ld g t (fun f' hf' => hh f' (List.mem_cons_of_mem _ hf'))
     simp [readFiles, h1, ih]
 
 /-- `RoundTrip fl ok`: a file made of the formatted batches `bs` (at least one record in all) whose records
@@ -305,12 +305,38 @@ def RoundTrip {β : Type} (fl : FileLayer β) (ok : Rec → Prop) : Prop :=
   ∀ bs : List (List Rec), bs.flatten ≠ [] → (∀ r ∈ bs.flatten, ok r) →
     fl.read (bs.map fl.write).flatten = some bs.flatten
 
+/-- what `Load()` does with the records of a file: some permutation (arrival order of the reader's batches) -/
+def LoadOK (ld : List Rec → List Rec) : Prop := ∀ l, (ld l).Perm l
+
+theorem flatten_map_perm (ld : List Rec → List Rec) (hl : LoadOK ld) : ∀ T : List (List Rec),
+    (T.map ld).flatten.Perm T.flatten
+  | [] => by simp
+  | t :: T => by
+    simp only [List.map_cons, List.flatten_cons]
+    exact (hl t).append (flatten_map_perm ld hl T)
+
+/-- permuting the members inside every class keeps `SpecP` -/
+theorem SpecP.map_perm {fs : List (Rec → Code)} {b : List Rec} {T : List (List Rec)} (S : SpecP fs b T)
+    (ld : List Rec → List Rec) (hl : LoadOK ld) : SpecP fs b (T.map ld) := by
+  refine ⟨?_, ?_, (flatten_map_perm ld hl T).trans S.perm⟩
+  · intro t' ht'
+    obtain ⟨t, ht, rfl⟩ := List.mem_map.mp ht'
+    obtain ⟨x, hx, hp⟩ := S.cls t ht
+    exact ⟨x, (hl t).mem_iff.mpr hx, (hl t).trans hp⟩
+  · rw [List.pairwise_map]
+    refine List.Pairwise.imp ?_ S.sep
+    intro t t' hh a ha a' ha'
+    exact hh a ((hl t).mem_iff.mp ha) a' ((hl t').mem_iff.mp ha')
+
 /-- **on-disk mode**: when the temporary directory can be made and the file layer round-trips the records of the
 input, `ISequenceChunkOnDisk` pushes exactly the chunks of the memory mode (in the lexical order of the file
-names), every record once, none lost in a file -/
+names, the members of a chunk in the order `Load` leaves them), every record once, none lost in a file -/
 theorem chunkDisk_ok {β : Type} (fl : FileLayer β) (ok : Rec → Prop) (hrt : RoundTrip fl ok)
-    (code : Rec → Nat) (size : Nat) (batches : List (List Rec)) (hok : ∀ r ∈ batches.flatten, ok r) :
-    ∃ cs, chunkDisk fl true code size batches = .ok cs ∧ cs.Perm (chunkMem code size batches) := by
+    (ld : List Rec → List Rec) (code : Rec → Nat) (size : Nat) (batches : List (List Rec))
+    (hok : ∀ r ∈ batches.flatten, ok r) :
+    ∃ cs, chunkDisk fl ld true code size batches = .ok cs ∧
+      (cs.map (·.2)).Perm (((chunkMem code size batches).map (·.2)).map ld) ∧
+      (cs.map (·.1)).Perm ((chunkMem code size batches).map (·.1)) := by
   obtain ⟨_, hcont, _⟩ := distribute_spec code size batches
   let files := (distribute code size batches).map fun e => (e.1, (e.2.map fl.write).flatten)
   let g : Nat × List β → List Rec := fun f => batches.flatten.filter (fun r => decide (code r = f.1))
@@ -326,29 +352,35 @@ theorem chunkDisk_ok {β : Type} (fl : FileLayer β) (ok : Rec → Prop) (hrt : 
       exact hok r (List.mem_filter.mp hr).1)]
     exact congrArg some c1
   refine ⟨_, by
-    show (if true = true then readFiles fl (lexFiles files) else _) = _
+    show (if true = true then readFiles fl ld (lexFiles files) else _) = _
     rw [if_pos rfl]
-    exact readFiles_ok fl g _ hread, ?_⟩
-  rw [chunkMem_eq]
-  refine (hperm.map _).trans ?_
-  rw [List.map_map]
-  apply List.Perm.of_eq
-  apply List.map_congr_left
-  intro d hd
-  simp only [Function.comp, g]
-  rw [(hcont d hd).1]
+    exact readFiles_ok fl ld g _ hread, ?_, ?_⟩
+  · rw [chunkMem_eq, List.map_map, List.map_map, List.map_map]
+    refine (hperm.map _).trans ?_
+    rw [List.map_map]
+    apply List.Perm.of_eq
+    apply List.map_congr_left
+    intro d hd
+    simp only [Function.comp, g]
+    rw [(hcont d hd).1]
+  · rw [chunkMem_eq, List.map_map, List.map_map]
+    refine (hperm.map _).trans ?_
+    rw [List.map_map]
+    exact List.Perm.of_eq (List.map_congr_left fun d _ => rfl)
 
-/-- **`ChunksOK` for the on-disk mode** (one worker: `nworkers = 1`, or any sharing) -/
+/-- **`ChunksOK` for the on-disk mode** (one worker: `nworkers = 1`, or any sharing), whatever order `Load`
+leaves the records of a chunk in -/
 theorem chunkDisk_chunksOK {β : Type} (fl : FileLayer β) (ok : Rec → Prop) (hrt : RoundTrip fl ok)
+    (ld : List Rec → List Rec) (hl : LoadOK ld)
     (h : Seq → Nat) (size : Nat) (batches : List (List Rec)) (hok : ∀ r ∈ batches.flatten, ok r) :
-    ∃ cs, chunkDisk fl true (fun r => h r.seq) size batches = .ok cs ∧
+    ∃ cs, chunkDisk fl ld true (fun r => h r.seq) size batches = .ok cs ∧
       ∀ ws : List (List (List Rec)), ws.flatten.Perm (cs.map (·.2)) → ChunksOK h batches.flatten ws := by
-  obtain ⟨cs, h1, h2⟩ := chunkDisk_ok fl ok hrt (fun r => h r.seq) size batches hok
-  exact ⟨cs, h1, fun ws hp => chunkMem_chunksOK h size batches ws (hp.trans (h2.map _))⟩
+  obtain ⟨cs, h1, h2, _⟩ := chunkDisk_ok fl ok hrt ld (fun r => h r.seq) size batches hok
+  exact ⟨cs, h1, fun ws hp => ((chunkMem_specP h size batches).map_perm ld hl).of_perm (hp.trans h2)⟩
 
 /-- the temporary directory cannot be made: the error is returned, no record is delivered -/
-theorem chunkDisk_mkdir_fails {β : Type} (fl : FileLayer β) (code : Rec → Nat) (size : Nat)
-    (batches : List (List Rec)) : chunkDisk fl false code size batches = .error "err" := rfl
+theorem chunkDisk_mkdir_fails {β : Type} (fl : FileLayer β) (ld : List Rec → List Rec) (code : Rec → Nat)
+    (size : Nat) (batches : List (List Rec)) : chunkDisk fl ld false code size batches = .error "err" := rfl
 
 /-- the driver's file layer round-trips everything -/
 theorem idLayer_roundTrip : RoundTrip idLayer (fun _ => True) := by
